@@ -49,6 +49,7 @@ def task_shim(spec, func, args, kwds):
             os._exit(17)
         if spec.get("raise_"):
             raise make_exc(*spec["raise_"])
+    instrument.install_admm_monitor()      # no-op in forked workers (inherited); needed in spawned ones
     instrument.ADMM_LAST.clear()
     result = func(*args, **kwds)
     rec = instrument.admm_exit_record()
